@@ -482,48 +482,65 @@ def fresh(u):
 COLS = ["a", "b", "c", "d", "e", "g"]
 
 
-def gen_column(rng, kind, n):
-    import pandas as pd
-    if kind in EXT_DTYPE:
-        return pd.array(gen_column(rng, BASE_KIND[kind], n), dtype=EXT_DTYPE[kind])
-    if kind == "Z":
-        return pd.DatetimeIndex(gen_column(rng, "M", n)).tz_localize("UTC") if n else \
-            pd.DatetimeIndex([], dtype="datetime64[ns, UTC]")
-    if kind == "f":
-        return [float(rng.choice([0.5, 1.0, 2.0, 3.5, -1.0, 10.0])) for _ in range(n)]
-    if kind == "i":
-        return [rng.choice([0, 1, 2, 3, 7, -4]) for _ in range(n)]
-    if kind == "O":
-        return [rng.choice(["x", "y", "z", "w"]) for _ in range(n)]
-    if kind == "b":
-        return [rng.choice([True, False]) for _ in range(n)]
-    return list(pd.to_datetime([rng.choice(["2020-01-01", "2021-06-30", "2022-12-24"]) for _ in range(n)]))
-
-
-def gen_origin(rng, loc_counter):
-    from pdtable.table_origin import TableOrigin, LocationBlock, LocationSheet, NullLocationFile
-
+def origin_spec(rng, loc_counter):
+    """None | {"loc": row} | {"op": "made up", "parents": [leaf, leaf]}"""
     def leaf():
         loc_counter[0] += 1
-        sheet = LocationSheet(file=NullLocationFile("f", id="f"), sheet_name=None)
-        return TableOrigin(input_location=LocationBlock(sheet=sheet, row=loc_counter[0]))
+        return {"loc": loc_counter[0]}
     x = rng.random()
     if x < 0.15:
         return None
     if x < 0.8:
         return leaf()
-    return TableOrigin(operation="made up", parents=[leaf(), leaf()])
+    return {"op": "made up", "parents": [leaf(), leaf()]}
+
+
+def build_origin(spec):
+    from pdtable.table_origin import TableOrigin, LocationBlock, LocationSheet, NullLocationFile
+    if spec is None:
+        return None
+    if "loc" in spec:
+        sheet = LocationSheet(file=NullLocationFile("f", id="f"), sheet_name=None)
+        return TableOrigin(input_location=LocationBlock(sheet=sheet, row=spec["loc"]))
+    return TableOrigin(operation=spec["op"], parents=[build_origin(p) for p in spec["parents"]])
 
 
 class SetupRefused(Exception):
     """pdtable refused to build a table whose units go with its dtype kinds"""
 
 
-def gen_table(rng, loc_counter, name=None, cols=None, nrows=None, force=None):
-    """a random small table; `cols` = list of (label, kind, unit) to force a header"""
+def column_values(rng, kind, n):
+    """JSON-able cell values of one column (datetimes as ISO text)"""
+    base = BASE_KIND.get(kind, kind)
+    if base == "f":
+        return [float(rng.choice([0.5, 1.0, 2.0, 3.5, -1.0, 10.0])) for _ in range(n)]
+    if base == "i":
+        return [rng.choice([0, 1, 2, 3, 7, -4]) for _ in range(n)]
+    if base == "O":
+        return [rng.choice(["x", "y", "z", "w"]) for _ in range(n)]
+    if base == "b":
+        return [rng.choice([True, False]) for _ in range(n)]
+    return [rng.choice(["2020-01-01", "2021-06-30", "2022-12-24"]) for _ in range(n)]
+
+
+def build_column(kind, values):
     import pandas as pd
-    from pdtable import Table
-    from pdtable.table_metadata import ColumnFormat
+    if kind in EXT_DTYPE:
+        return pd.array(values, dtype=EXT_DTYPE[kind])
+    if kind == "Z":
+        return pd.DatetimeIndex(pd.to_datetime(values)).tz_localize("UTC") if values else \
+            pd.DatetimeIndex([], dtype="datetime64[ns, UTC]")
+    if kind == "M":
+        return list(pd.to_datetime(values))
+    return list(values)
+
+
+def gen_column(rng, kind, n):
+    return build_column(kind, column_values(rng, kind, n))
+
+
+def table_spec(rng, loc_counter, name=None, cols=None, nrows=None, force=None):
+    """a random small table as plain data; `cols` = list of (label, kind, unit) to force a header"""
     force = force or {}
     n = nrows if nrows is not None else rng.choice([1, 2, 3, 3, 4, 0] if rng.random() < 0.3 else [2, 3, 4])
     if cols is None:
@@ -540,29 +557,50 @@ def gen_table(rng, loc_counter, name=None, cols=None, nrows=None, force=None):
             if kind in "fiIF" and (rng.random() < 0.3 or force.get("odd")):
                 unit = rng.choice(ODD_UNITS)
             cols.append((l, kind, unit))
-    data = {l: gen_column(rng, kind, n) for l, kind, _ in cols}
-    df = pd.DataFrame(data)
-    if n == 0:
-        for l, kind, _ in cols:   # keep the intended dtypes on empty frames
-            if kind in NP_DTYPE:
-                df[l] = df[l].astype(NP_DTYPE[kind])
-    kw = {}
-    if rng.random() < 0.15 or force.get("nonstrict"):
-        kw["strict_types"] = False
-    dests = set(rng.sample(["all", "d1", "d2", "x"], rng.choice([1, 1, 2, 3])))
+    columns = [{"label": l, "kind": kind, "unit": u, "values": column_values(rng, kind, n)} for l, kind, u in cols]
+    strict = not (rng.random() < 0.15 or force.get("nonstrict"))
+    dests = sorted(rng.sample(["all", "d1", "d2", "x"], rng.choice([1, 1, 2, 3])))
+    if rng.random() < 0.12:
+        dests = []                 # a table without any destination is not a table for "all"
+    if name is None and rng.random() < 0.06:
+        name = ""
+    name = name if name is not None else rng.choice(["t", "tab", "é_1", "foo"])
+    origin = origin_spec(rng, loc_counter)
+    for c in columns:
+        c["display_unit"] = rng.choice(["km", "", "g"]) if rng.random() < 0.2 else None
+        c["display_format"] = rng.choice([2, "14.3e"]) if rng.random() < 0.2 else None
+    return {"name": name, "dests": dests, "strict": strict, "origin": origin, "nrows": n, "columns": columns}
+
+
+def build_table(spec):
+    import pandas as pd
+    from pdtable import Table
+    from pdtable.table_metadata import ColumnFormat
+    cols = spec["columns"]
+    df = pd.DataFrame({c["label"]: build_column(c["kind"], c["values"]) for c in cols})
+    if spec["nrows"] == 0:
+        for c in cols:   # keep the intended dtypes on empty frames
+            if c["kind"] in NP_DTYPE:
+                df[c["label"]] = df[c["label"]].astype(NP_DTYPE[c["kind"]])
+    kw = {} if spec["strict"] else {"strict_types": False}
     try:
-        t = Table(df, name=name or rng.choice(["t", "tab", "é_1", "foo"]), units=[fresh(u) for _, _, u in cols],
-                  destinations=dests, origin=gen_origin(rng, loc_counter), **kw)
+        t = Table(df, name=spec["name"], units=[fresh(c["unit"]) for c in cols], destinations=set(spec["dests"]),
+                  origin=build_origin(spec["origin"]), **kw)
     except Exception as e:  # noqa: BLE001 — every generated header pairs special units with their own dtype kind
-        raise SetupRefused(type(e).__name__, [[l, str(df[l].dtype), df[l].dtype.kind, u] for l, _, u in cols]) from e
+        raise SetupRefused(type(e).__name__,
+                           [[c["label"], str(df[c["label"]].dtype), df[c["label"]].dtype.kind, c["unit"]] for c in cols]) from e
     cm = t.column_metadata
-    for l, _, _ in cols:
-        x = rng.random()
-        if x < 0.2:
-            cm[l].display_unit = rng.choice(["km", "", "g"])
-        if rng.random() < 0.2:
-            cm[l].display_format = ColumnFormat(rng.choice([2, "14.3e"]))
+    for c in cols:
+        if c.get("display_unit") is not None:
+            cm[c["label"]].display_unit = c["display_unit"]
+        if c.get("display_format") is not None:
+            cm[c["label"]].display_format = ColumnFormat(c["display_format"])
     return t
+
+
+def spec_header(spec):
+    """[(label, numpy dtype kind, unit)] of a table spec"""
+    return [(c["label"], BASE_KIND.get(c["kind"], c["kind"]), c["unit"]) for c in spec["columns"]]
 
 
 def header_of(t):
@@ -980,7 +1018,7 @@ def _ops():
 # safe-list operations that turn numeric data into text / booleans: the kept unit cannot stay
 DEGRADING = {"astype_str", "astype_object", "astype_bool", "replace_label", "fillna_label", "assign_retype", "replace"}
 MUTS = ["set_unit", "set_name", "add_dest", "add_column_new", "add_column_existing", "set_disp_unit", "set_fmt",
-        "rewrap_name", "rewrap_units", "rewrap_dests", "rewrap_none", "del_column", "reorder"]
+        "rewrap_name", "rewrap_units", "rewrap_dests", "rewrap_none", "del_column", "reorder", "discard_dest"]
 SIDES = ["source", "result"]
 N_MUT = len(MUTS) * len(SIDES)
 
@@ -994,17 +1032,35 @@ def pub(world, df):
     if err:
         return {"exc": err}
     t = Table(df)
-    o = t.metadata.origin
+    td = t.table_data           # one consultation; Table.name / .destinations / .units are its accessors
+    md = td.metadata
+    o = md.origin
     try:
         anc = [id_loc(x) for x in o.get_input_ancestors()]
     except Exception as e:  # noqa: BLE001
         anc = {"exc": type(e).__name__}
-    return {"name": t.name, "dests": sorted(t.destinations),
-            "cols": [[tok(l), c.unit, c.display_unit, fmt_spec(c.display_format)] for l, c in t.column_metadata.items()],
+    return {"name": md.name, "name_api": td.name,
+            "dests": sorted(md.destinations), "dests_api": sorted(td.destinations),
+            "cols": [[tok(l), c.unit, c.display_unit, fmt_spec(c.display_format)] for l, c in td.columns.items()],
             "column_names": [tok(c) for c in t.column_names],
             "op": getattr(o, "operation", None), "anc": anc, "is_origin": o is not None,
             "origin_id": id(o),
-            "strict": t.metadata.strict_types, "transposed": t.metadata.transposed}
+            "strict": md.strict_types, "transposed": md.transposed}
+
+
+def header_lines(df):
+    """the `**name` line and the destination line pdtable writes for this frame (None if it cannot be written)"""
+    import io
+    from pdtable import Table, write_csv
+    try:
+        buf = io.StringIO()
+        with warnings.catch_warnings():
+            warnings.simplefilter("ignore")
+            write_csv(Table(df), buf)
+        lines = buf.getvalue().split("\n")
+        return [lines[0], sorted(lines[1].split(";")[0].split(" "))]
+    except Exception:  # noqa: BLE001 — frames pdtable cannot write (odd labels, dtypes) are not compared this way
+        return None
 
 
 def id_loc(loc):
@@ -1013,7 +1069,8 @@ def id_loc(loc):
 
 def same_view(a, b):
     """observations that must not change when *another* frame is mutated"""
-    keys = ("name", "dests", "cols", "column_names", "op", "anc", "strict", "transposed", "exc")
+    keys = ("name", "name_api", "dests", "dests_api", "cols", "column_names", "op", "anc", "strict", "transposed",
+            "exc")
     return all(a.get(k) == b.get(k) for k in keys)
 
 
@@ -1102,6 +1159,15 @@ def apply_mutation(res, world, rng, frames, target, mut):
         Table(target).destinations.add(d)
         world.push({"k": "mutate", "info": r, "mut": {"m": "add_dest", "d": d}}, "ok")
         return fresh, new
+    if mut == "discard_dest":
+        if world.consult(target):
+            return False, new
+        cur_d = sorted(info.metadata.destinations)
+        d = rng.choice(cur_d) if cur_d else "all"
+        Table(target).metadata.destinations.discard(d)      # often the only one: an empty destination set
+        world.push({"k": "mutate", "info": r, "mut": {"m": "remove_dest", "d": d}}, "ok")
+        res.counts.append("dests-left:%d" % min(len(info.metadata.destinations), 2))
+        return bool(cur_d), new
     if mut in ("add_column_new", "add_column_existing"):
         if mut == "add_column_new":
             l = next(x for x in ("nw2", "nw3", "nw4", "nw5", "nw6", "nw7", "nw8", "nw9") if x not in target.columns)
@@ -1338,6 +1404,16 @@ def check_result(res, world, name, safe, sources, pre, R, exc, ws_outer, calls):
         res.fail("result does not carry the first source's name", p["name"], first["name"], key="name")
     if p["dests"] != first["dests"]:
         res.fail("result does not carry the first source's destinations", p["dests"], first["dests"], key="destinations")
+    if p["name_api"] != first["name_api"] or p["dests_api"] != first["dests_api"]:
+        res.fail("Table(result).name / .destinations differ from the first source's",
+                 [p["name_api"], p["dests_api"]], [first["name_api"], first["dests_api"]], key="destinations_api")
+    # writing is slow: always where empty-vs-default matters (no / one destination, empty name), else 1 case in 5
+    la = lb = None
+    if len(first["dests"]) <= 1 or first["name"] == "" or res.case["index"] % 5 == 0:
+        la, lb = header_lines(src_info[0][0]), header_lines(R)
+    if la is not None and lb is not None and la != lb:
+        res.fail("the written table header (name line, destination line) of the result differs from the first source's",
+                 lb, la, key="written_header")
     units = {}
     for s, sp in src_info:
         for l, u, _, _ in sp["cols"]:
@@ -1393,14 +1469,38 @@ def check_result(res, world, name, safe, sources, pre, R, exc, ws_outer, calls):
     return R
 
 
-def run_case(seed, stream, index, ops):
-    """build tables, run the operation, check the clauses, mutate, check independence"""
-    global _CURRENT
-    import pandas as pd
+# chain lengths for the 'long' stream: a multi-source operation, then this many single-source safe operations
+LONG_LADDER = [15, 16, 17, 32, 64, 200, 31, 33, 63, 65, 127, 129]
+LONG_STEPS = ["copy", "copy_shallow", "sort_index", "fillna", "rename_index"]
+LONG_MULTI = ["concat_rows", "concat_cols", "concat_rows_3"]
+
+
+def long_plan(rng, index, names):
+    """multi-source operation at the start / in the middle / twice, and a long tail of single-source operations;
+    the input ancestors are checked after every step"""
+    n = LONG_LADDER[index % len(LONG_LADDER)]
+    where = ["start", "middle", "twice"][(index // len(LONG_LADDER)) % 3]
+    steps = [rng.choice(LONG_STEPS) for _ in range(n)]
+    multi = rng.choice(LONG_MULTI)
+    if where == "start":
+        seq = [multi] + steps
+    elif where == "middle":
+        k = rng.choice([1, 2, 5])
+        seq = steps[:k] + [multi] + steps[k:]
+    else:
+        seq = [multi] + steps + [rng.choice(LONG_MULTI)] + [rng.choice(LONG_STEPS) for _ in range(min(n, 20))]
+    return [(names[x], []) for x in seq]
+
+
+def make_case(seed, stream, index, ops):
+    """the case as plain data: literal tables, operations by name with the seed of their argument draws,
+    follow-up mutations — everything `exec_case` needs, nothing that depends on stream positions"""
     rng = make_rng(seed, f"C05:{stream}:{index}")
-    world = World()
     loc_counter = [index * 100]
-    if stream == "pairs":
+    names = {o[0]: k for k, o in enumerate(ops)}
+    if stream == "long":
+        plan = long_plan(rng, index, names)
+    elif stream == "pairs":
         n_ops = len(ops)
         op_idx = (index // N_MUT) % n_ops
         mi = index % N_MUT
@@ -1409,86 +1509,99 @@ def run_case(seed, stream, index, ops):
         depth = rng.choice([2, 3, 4])
         plan = [(rng.randrange(len(ops)), [(rng.choice(SIDES), rng.choice(MUTS)) for _ in range(rng.choice([0, 1, 2]))])
                 for _ in range(depth)]
-    case = {"seed": seed, "stream": stream, "index": index,
-            "plan": [[ops[i][0], [list(m) for m in ms]] for i, ms in plan]}
+    degrading = ops[plan[0][0]][0] in DEGRADING and rng.random() < 0.6
+    t0 = table_spec(rng, loc_counter,
+                    nrows=rng.choice([2, 3, 3, 4, 0]) if rng.random() < 0.25 else rng.choice([2, 3, 4]),
+                    force={"odd": True} if degrading else None)
+    tables = [t0]
+    hdr = spec_header(t0)
+    n0 = t0["nrows"]
+    steps = []
+    for i, (oi, muts) in enumerate(plan):
+        kind = ops[oi][0]
+        extra = []
+        if ops[oi][2] > 2:
+            # 2-3 further tables sharing columns (m1, m2) the first table lacks; with "clash" two of the
+            # LATER tables disagree on the unit of m1 (whichever pair), otherwise all agree
+            k = rng.choice([2, 3])
+            have_m1 = sorted(rng.sample(range(k), 2)) if k == 3 and rng.random() < 0.5 else list(range(k))
+            clash_at = rng.choice(have_m1[1:]) if kind == "concat_late_clash" else None
+            for j in range(k):
+                cols = [hdr[0]] if rng.random() < 0.7 else []
+                if j in have_m1:
+                    cols.append(("m1", "f", "g" if j == clash_at else "kg"))
+                if rng.random() < 0.6 or not cols:
+                    cols.append(("m2", "i", "N"))
+                tables.append(table_spec(rng, loc_counter, name="u%d_%d" % (i, j), cols=cols))
+                extra.append(len(tables) - 1)
+        elif ops[oi][2] > 1:
+            nrows = n0 if "cols" in kind or kind == "join" else None
+            if kind in ("concat_rows", "concat_rows_3", "concat_cols_dup"):
+                cols = list(hdr)
+            elif kind == "concat_rows_mixed":
+                cols = hdr[: max(1, len(hdr) - 1)] + [("x1", "f", "N")]
+            elif kind in ("concat_cols", "join"):
+                cols = [("p", "f", "kg"), ("q", "O", "text")]
+            elif kind == "concat_clash":
+                cols = [(l, k, (u + "X") if j == 0 and u not in SPECIAL else u) for j, (l, k, u) in enumerate(hdr)]
+                if hdr[0][2] in SPECIAL:
+                    cols = list(hdr)         # no clash possible on a special unit: plain concat
+            elif kind in ("merge_key", "merge_fn"):
+                cols = [hdr[0], ("r1", "f", "N")] + ([(hdr[1][0], hdr[1][1], "other")] if len(hdr) > 1 and hdr[1][2] not in SPECIAL else [])
+            elif kind == "merge_clash":
+                l, k, u = hdr[0]
+                cols = [(l, k, u + "X" if u not in SPECIAL else u), ("r1", "f", "N")]
+            else:
+                cols = None
+            tables.append(table_spec(rng, loc_counter, name="u%d" % i, cols=cols, nrows=nrows))
+            extra.append(len(tables) - 1)
+        steps.append({"op": kind, "args": rng.getrandbits(32), "extra": extra,
+                      "muts": [{"side": sd, "mut": m, "args": rng.getrandbits(32)} for sd, m in muts]})
+    return {"seed": seed, "stream": stream, "index": index, "tables": tables, "steps": steps}
+
+
+def run_case(seed, stream, index, ops):
+    return exec_case(make_case(seed, stream, index, ops), ops)
+
+
+def exec_case(case, ops):
+    """build the tables, run the operations, check the clauses, mutate, check independence — from the
+    content of `case` alone"""
+    global _CURRENT
+    import random
+    world = World()
+    names = {o[0]: k for k, o in enumerate(ops)}
+    stream = case.get("stream", "chains")
     res = CaseResult(case)
     res.world = world
     try:
         # all tables of the case are made up front (the model allocates the initial infos first)
-        degrading = ops[plan[0][0]][0] in DEGRADING and rng.random() < 0.6
-        t0 = gen_table(rng, loc_counter,
-                       nrows=rng.choice([2, 3, 3, 4, 0]) if rng.random() < 0.25 else rng.choice([2, 3, 4]),
-                       force={"odd": True} if degrading else None)
-        world.add_table(t0)
-        extra = []
-        hdr = header_of(t0)
-        n0 = len(t0.df)
-        for i, (oi, _) in enumerate(plan):
-            if ops[oi][2] > 2:
-                # 2-3 further tables sharing columns (m1, m2) the first table lacks; with "clash" two of the
-                # LATER tables disagree on the unit of m1 (whichever pair), otherwise all agree
-                kind = ops[oi][0]
-                k = rng.choice([2, 3])
-                have_m1 = sorted(rng.sample(range(k), 2)) if k == 3 and rng.random() < 0.5 else list(range(k))
-                clash_at = rng.choice(have_m1[1:]) if kind == "concat_late_clash" else None
-                us = []
-                for j in range(k):
-                    cols = [hdr[0]] if rng.random() < 0.7 else []
-                    if j in have_m1:
-                        cols.append(("m1", "f", "g" if j == clash_at else "kg"))
-                    if rng.random() < 0.6 or not cols:
-                        cols.append(("m2", "i", "N"))
-                    u = gen_table(rng, loc_counter, name="u%d_%d" % (i, j), cols=cols)
-                    world.add_table(u)
-                    us.append(u)
-                extra.append(us)
-            elif ops[oi][2] > 1:
-                kind = ops[oi][0]
-                nrows = n0 if "cols" in kind or kind == "join" else None
-                if kind in ("concat_rows", "concat_rows_3", "concat_cols_dup"):
-                    cols = list(hdr)
-                elif kind == "concat_rows_mixed":
-                    cols = hdr[: max(1, len(hdr) - 1)] + [("x1", "f", "N")]
-                elif kind in ("concat_cols", "join"):
-                    cols = [("p", "f", "kg"), ("q", "O", "text")]
-                elif kind == "concat_clash":
-                    cols = [(l, k, (u + "X") if j == 0 and u not in SPECIAL else u) for j, (l, k, u) in enumerate(hdr)]
-                    if hdr[0][2] in SPECIAL:
-                        cols = list(hdr)         # no clash possible on a special unit: plain concat
-                elif kind in ("merge_key", "merge_fn"):
-                    cols = [hdr[0], ("r1", "f", "N")] + ([(hdr[1][0], hdr[1][1], "other")] if len(hdr) > 1 and hdr[1][2] not in SPECIAL else [])
-                elif kind == "merge_clash":
-                    l, k, u = hdr[0]
-                    cols = [(l, k, u + "X" if u not in SPECIAL else u), ("r1", "f", "N")]
-                else:
-                    cols = None
-                u = gen_table(rng, loc_counter, name="u%d" % i, cols=cols, nrows=nrows)
-                world.add_table(u)
-                extra.append(u)
-            else:
-                extra.append(None)
+        built = []
+        for spec in case["tables"]:
+            t = build_table(spec)
+            world.add_table(t)
+            built.append(t)
     except SetupRefused as e:
         res.fail("a table whose units agree with the dtype kinds of its columns was refused at construction",
                  {"exc": e.args[0], "columns": e.args[1]}, "a table frame", key="table_construction_refused")
         return res
-    frames = [t0.df]
-    for u in extra:
-        if isinstance(u, list):
-            frames += [x.df for x in u]
-        elif u is not None:
-            frames.append(u.df)
+    t0 = built[0]
+    plan = [st for st in case["steps"] if st["op"] in names]
+    frames = [t.df for t in built]
     cur = t0.df
     _CURRENT = world
     try:
-        for step_no, (oi, muts) in enumerate(plan):
-            name, safe, arity, build = ops[oi]
+        for step in plan:
+            name, safe, arity, build = ops[names[step["op"]]]
+            muts = step["muts"]
+            rng = random.Random(step["args"])
             if not has_info(cur):
                 break
-            u = extra[step_no]
+            us = [built[k].df for k in step["extra"] if k < len(built)]
 
-            def mk(**kw):
-                return u.df
-            mk.all = [x.df for x in u] if isinstance(u, list) else []
+            def mk(_us=us, **kw):
+                return _us[0]
+            mk.all = us
             try:
                 sources, thunk = build(rng, cur, mk)
             except Exception as e:  # noqa: BLE001 — generator could not build arguments for this frame
@@ -1531,7 +1644,9 @@ def run_case(seed, stream, index, ops):
                 frames.append(Rt)
                 world.keep.append(Rt)
             # follow-up mutations: every other frame's observations stay as they are
-            for side, mut in muts:
+            for mstep in muts:
+                side, mut = mstep["side"], mstep["mut"]
+                rng = random.Random(mstep["args"])
                 cands = [s for s in sources if has_info(s)] if side == "source" else ([Rt] if Rt is not None else [])
                 if not cands:
                     res.counts.append("mut-skip:no-" + side)
@@ -1599,7 +1714,8 @@ def run(tier, seed, model_ok, translator, search=False):
     per_key = {}
     seen_methods = {}
     try:
-        for stream, n in (("pairs", n_pairs), ("chains", n_chains)):
+        n_long = 7 if tier == "quick" else 72
+        for stream, n in (("pairs", n_pairs), ("chains", n_chains), ("long", n_long)):
             for index in range(n):
                 with warnings.catch_warnings():
                     warnings.simplefilter("ignore")
@@ -1664,16 +1780,27 @@ def canon(x):
 
 
 def replay(rep):
+    """rebuild the failing case from the content recorded in the replay file and re-evaluate exactly the oracle
+    that failed (no generated stream is re-run)"""
     inp = rep.get("input") or {}
-    if "index" not in inp or "stream" not in inp:
+    ops = _ops()
+    if "tables" in inp and "steps" in inp:
+        case = inp
+    elif "index" in inp and "stream" in inp:      # replay files written before cases carried their content
+        case = make_case(int(inp.get("seed", rep.get("seed", 0))), inp["stream"], int(inp["index"]), ops)
+    else:
         return False, "replay file has no input (no-failing-input-found): " + str(rep.get("broken"))[:300]
     undo = install()
     try:
         with warnings.catch_warnings():
             warnings.simplefilter("ignore")
-            res = run_case(int(inp.get("seed", rep.get("seed", 0))), inp["stream"], int(inp["index"]), _ops())
+            res = exec_case(case, ops)
     finally:
         undo()
-    if res.failures:
-        return False, res.failures[0][0]
+    # exactly the oracle that failed is re-evaluated (other, e.g. known, findings of the same case do not count)
+    what = rep.get("what")
+    hits = [f for f in res.failures if f[0] == what] if what else \
+        [f for f in res.failures if not f[3].startswith(("safe_op_degraded:", "tableframe_without_metadata:"))]
+    if hits:
+        return False, hits[0][0]
     return True, "property holds on this input"
